@@ -91,17 +91,27 @@ PROPS["C04"] = dict(
     outside="more than 3 entries / 3 classes; names longer than 2 bytes; 'last class line wins' (builder)",
     assumptions=[],
 )
-H("C04", "mapper", "c04_mapper_remap_method", what="mapper remap_method/remap_class/remap_frame agreement on a hand-built 1-class mapper", vars="entry count 1..3, original names from 3, all line numbers, frame line",
-  bound="<=3 entries", functions=["ProguardMapper::remap_method", "ProguardMapper::remap_class", "ProguardMapper::remap_frame", "mapper::iterate_with_lines"], stubs=STD_STUBS)
+_c04m = dict(functions=["ProguardMapper::remap_method", "ProguardMapper::remap_class", "ProguardMapper::remap_frame", "mapper::iterate_with_lines"],
+             stubs=STD_STUBS + ["mapper::extract_class_name -> constant (no entry has a file)"], bound="<=3 entries, 1 class, 1-byte names",
+             vars="all line numbers of every entry, frame line")
+for _n in ["f", "ff", "fg", "fff", "ffg", "gff"]:
+    H("C04", "mapper", "c04_mapper_" + _n, what="mapper: remap_method iff all entries agree (original names " + _n + "), frames agree, exact class/method lookup, unknown names yield nothing", **_c04m)
 
 # --------------------------------------------------------------------------- C08
 PROPS["C08"] = dict(
     claim="remap_stacktrace_typed keeps the cause-chain depth, every throwable (remapped or unchanged) and every frame (remapped or unchanged)",
-    outside="depth > 1 cause; more than 2 frames per level; agreement with the text API (C07 is not applicable)",
+    outside="cause depth > 2; frames that expand to more than one remapped frame inside a typed trace (measured: Vec::extend with a symbolic number of frames does not finish in 300 s); agreement with the text API (C07 is not applicable)",
     assumptions=[],
 )
-H("C08", "mapper", "c08_mapper_typed", what="mapper typed remap keeps everything", vars="exception present/known/message, 2 frame lines, frame class known, cause present/known",
-  bound="depth<=1, 2 frames", functions=["ProguardMapper::remap_stacktrace_typed", "ProguardMapper::remap_throwable", "ProguardMapper::remap_frame"], stubs=STD_STUBS, timeout=900)
+_c08m = dict(functions=["ProguardMapper::remap_stacktrace_typed", "ProguardMapper::remap_throwable", "ProguardMapper::remap_frame", "mapper::iterate_with_lines"],
+             stubs=STD_STUBS + ["mapper::extract_class_name -> constant (no entry has a file)"])
+for _n in ["none", "known", "unknown", "known_unknown_known", "unknown_known_unknown", "none_unknown"]:
+    H("C08", "mapper", "c08_mapper_chain_" + _n, what="mapper typed remap keeps cause-chain depth and every throwable; (exception, cause, cause-of-cause) = " + _n,
+      vars="message presence", bound="cause depth<=2, no frames", **_c08m)
+for _n in ["unknown_r0", "unknown_r2"]:
+    H("C08", "mapper", "c08_mapper_frames_" + _n, what="mapper typed remap keeps 3 unresolvable frames unchanged (unknown class / unknown method)", vars="frame line within a regime", bound="3 frames", **_c08m)
+H("C08", "mapper", "c08_mapper_one_frame", what="one frame, one entry: replaced by its remapped frame or kept unchanged", vars="frame line (any usize)", bound="1 frame, 1 entry", **_c08m)
+H("C08", "mapper", "c08_mapper_two_frames", what="unresolvable frame followed by a resolvable one", vars="frame line (any usize)", bound="2 frames, 1 entry", **_c08m)
 
 # --------------------------------------------------------------------------- C13
 PROPS["C13"] = dict(
